@@ -40,12 +40,14 @@ RECIPES = {
     "C02": {
         "level": "model_checking",
         "mc": {"quick": [("MC_Decode", "MC_Decode_q")], "thorough": [("MC_Decode", "MC_Decode_t")]},
-        "families": {"quick": [("parse", 2500, 4), ("ident", 500, 1)], "thorough": [("parse", 20000, 12), ("ident", 5000, 2)]},
+        "families": {"quick": [("parse", 2500, 4), ("ident", 500, 1), ("table", 400, 2)],
+                     "thorough": [("parse", 20000, 12), ("ident", 5000, 2), ("table", 3000, 4)]},
         "reasons": ("value", "panic"),
         "rule": "A: for 18 structures x 2 classes x 4 byte-order values: every field set to each of {0,1,0x7f..,0x80..,all-ones} "
                 "over two per-byte-distinct backgrounds (top bits clear / set), ABI encoder vs code decoder, plus the packed-field "
                 "accessors over their whole domain; B: random / boundary bytes of each structure decoded by the crate and by the "
-                "spec; every case is distinct by construction",
+                "spec; every case is distinct by construction; entries reached through tables and iterators (get(i), next, nth, "
+                "skip, step_by) must be the decoding of the i-th ABI-sized slot in either class",
         "assumptions": COMMON_ASSUME + ["private fields (vd_aux, vd_next, vn_aux, vn_next, vna_next, vda_next) are observed through iteration (C13/C16), not here"],
     },
     "C09": {
@@ -55,16 +57,21 @@ RECIPES = {
         "reasons": ("value", "panic"),
         "rule": "A: table state machine: entry types x classes x orders x byte lengths 0..es+1, 2es-1..2es+1, 3es, 4es-1 "
                 "(ragged tails) x every access script of length 2 over len/is_empty/iter/into_iter/get(i), i in 0..len+2, "
-                "usize::MAX, usize::MAX/entsize; B: random lengths/contents/scripts of up to 5 accesses on one table object",
+                "usize::MAX, usize::MAX/entsize, plus every walk <prefix of next/nth(k)> + <rest|fold|count|last|skip(k)|step_by(k)|nth(MAX)> "
+                "on one iterator object (Iter.tla); B: random lengths/contents/scripts of up to 5 accesses or walks on one table "
+                "object, incl. tables of 255..257, 1000 and 65535..65537 entries",
         "assumptions": COMMON_ASSUME,
     },
     "C15": {
         "level": "model_checking",
-        "mc": {"quick": [("MC_StrTab", "MC_StrTab_q")], "thorough": [("MC_StrTab", "MC_StrTab_t", 12)]},
+        "mc": {"quick": [("MC_StrTab", "MC_StrTab_q"), ("MC_Utf8", "MC_Utf8_q")],
+               "thorough": [("MC_StrTab", "MC_StrTab_t", 12), ("MC_Utf8", "MC_Utf8_t", 12)]},
         "families": {"quick": [("strtab", 500, 4)], "thorough": [("strtab", 4000, 12)]},
         "reasons": ("value", "panic"),
         "rule": "A: every table of <= 5 (thorough 7) bytes over {NUL,'a',0xC3,0xA9} x every offset 0..len+2 and usize::MAX x "
-                "{get_raw,get}; B: random tables up to 300 bytes, offsets incl. usize::MAX; error kinds are not compared "
+                "{get_raw,get}, and every string of <= 3 (thorough 4) bytes over the 24 boundary bytes of the UTF-8 encoding through "
+                "get(); B: random tables up to 300 bytes, offsets incl. usize::MAX, plus constructed tables holding one NUL-free "
+                "run of 254..257 / 65534..65537 / 70000 bytes (every window in every shard); error kinds are not compared "
                 "(the property only says 'an error')",
         "assumptions": COMMON_ASSUME,
     },
@@ -86,14 +93,19 @@ RECIPES = {
     "C14": {
         "level": "model_checking",
         "mc": {"quick": [("MC_Notes", "MC_Notes_q", 12)], "thorough": [("MC_Notes", "MC_Notes_t", 14)]},
-        "families": {"quick": [("notes", 1500, 4)], "thorough": [("notes", 12000, 12)]},
+        "families": {"quick": [("notes", 1500, 4), ("elf", 6, 2), ("stream", 8, 3)],
+                     "thorough": [("notes", 12000, 12), ("elf", 40, 4), ("stream", 60, 6)]},
         "reasons": ("value", "panic"),
+        "tags": ["notes", "q:section_data_as_notes", "q:segment_data_as_notes", "sq:section_data_as_notes", "sq:segment_data_as_notes"],
         "rule": "A: <= 2 notes encoded from the ABI text, namesz/descsz over every residue 0..align+1, alignments {0,1,3,4} "
                 "(thorough {0,1,2,3,4,5,8,16}), plain / NUL-terminated / GNU ABI-tag / build-id, both orders, cut tails and "
                 "trailing junk: TLC checks iteration = the encoder's ground truth, every case replayed; "
                 "B: 0..5 notes, namesz/descsz 0..20, alignment {1,2,4,8,16,3,5,6,7,12,32,0,2^31,2^32-1,2^63,2^64-1}, both "
                 "classes and orders, typed GNU notes, trailing garbage / truncation / one corrupted byte; TLC compares the "
-                "iteration with the operational model and the operational model with the declarative record layout",
+                "iteration with the operational model and the operational model with the declarative record layout; the "
+                "section and segment paths of both parsers on generated objects (PT_NOTE over the note section or over its "
+                "leading notes only; on a stream: after caller-made reads that share the section's start or end), and walks "
+                "(nth/skip/step_by/...) over the iterator",
         "assumptions": COMMON_ASSUME,
     },
     "C11": {
